@@ -9,12 +9,17 @@ PROPS_FILE = 'theories/Props/C03.v'
 THEOREM = 'C03_dispatch_exactly_registered'
 CASE_TIMEOUT = 2
 RULE = ('random programs (0-16 top level operations after registering most handlers) over one '
-        'EventDispatcher with 2-5 scripted handlers of 1-3 classes built with type() and decorated '
-        'with desper.event_handler (chains of subclasses, inherited / overridden / renamed mappings, '
-        'undecorated subclasses), 1-3 events plus dispatches of names nobody handles, six argument '
+        'EventDispatcher (15 %: a World) with 2-5 scripted handlers of 1-5 classes built with type() '
+        'and decorated with desper.event_handler: roots, chains, diamonds and other multiple '
+        'inheritance (up to 3 bases, hierarchies Python\'s C3 rejects are re-drawn), decorated '
+        'classes mixed with event_handler() without arguments (also on roots), inherited / '
+        'overridden / renamed mappings, several events mapped to one method, subclasses redefining '
+        'methods a base maps an event to (the function that ran is checked against Python\'s own '
+        'resolution), 1-3 events plus dispatches of names nobody handles, six argument '
         'shapes (0-2 positionals, 0-2 keywords); 35 % of the handler methods carry a script of 1-3 '
         'actions (add/remove/is_handler/re-entrant dispatch/clear/raise); dispatching stays '
-        'enabled; after every class definition __events__ of all classes is read back; '
+        'enabled; after every class definition the MRO of the new class and __events__ of all '
+        'classes are read back; '
         'non-trivial = at least three executed state-changing actions and two callbacks')
 TRUSTED = [
     'Coq 8.16.1 kernel + vm_compute (evaluation of C03_verdict on the observed logs)',
@@ -25,8 +30,8 @@ TRUSTED = [
 ]
 ASSUMPTIONS = ['nothing below the top level catches exceptions (scripts never catch)',
                'handler objects use identity equality (otherwise: known finding K4)',
-               'single inheritance between handler classes (with several bases Python attribute '
-               'lookup hands the decorator the mapping of the first base in the MRO)']
+               'the MRO of a class is read from Python and checked to be a consistent linearisation '
+               '(C3 itself is CPython\'s, not modelled)']
 MODE = 3
 
 
